@@ -9,7 +9,7 @@ from impl import cminx
 NAMES = ['a', 'b', 'c', 'mod', 'x.y', 'd-e', 'aa', 'ab', 'ac', 'e1', 'e2', 'e3', 'Z', 'útf', 'tc.cmake.in', 'P.cmake', 'v1.2.x', '.hid',
          'A', 'Mod', 'B', 'sub\\a', 'deep\\mod', 're\u0301sume\u0301', '模块', 'ｗｉｄｅ', 'x\u0308y']      # case twins, backslashes, combining marks, wide characters
 EXTS = ['.cmake', '.cmake', '.cmake', '.cmake', '.CMake', '.CMAKE', '.txt', '', '.cmake.in', '.cmake~']
-DIRS = ['sub', 'deep', 'aa', 'ab', 'ac', 'build', 'x.d', 'cmake', 'T-1', 'tmpl.cmake', '.dot']
+DIRS = ['sub', 'deep', 'my dir', 'aa', 'ab', 'ac', 'build', 'x.d', 'cmake', 'T-1', 'tmpl.cmake', '.dot']
 PATTERNS = ['a*/', '*.cmake/', 'mod*/', 'e?/', 'aa/', 'ab/', 'ac/', 'build', 'sub/', '*.txt', 'a.cmake', 'b.cmake', 'c.cmake', '**/deep/*.cmake', 'mod.*', 'x.d/',
             'aa.cmake', 'ab.cmake', 'ac.cmake', 'e1.cmake', 'e2.cmake', 'e3.cmake', '*.cmake', 'sub/*.cmake', '/nomatch', 'deep/',
             '{INP}/sub/a.cmake', '{INP}/aa/', '**/ab/', 'a*', '!a.cmake', 'cmake/']
@@ -21,7 +21,7 @@ def file_content(g, name):
     if k < 0.08:      # characters that str.splitlines() treats as line boundaries although CMake and the aggregator do not
         return '#[[[\n# page\x0cbreak and v\x0btab, ls\u2028ps\u2029 nel\x85 fs\x1c here\n#]]\nfunction(f_%s a)\nendfunction()\n' % ident
     if k < 0.14:      # titles whose display width differs from their length
-        return '#[[[ @module named.%s%s\n# module text\n#]]\nfunction(f_%s)\nendfunction()\n' % (g.choice(['模块名称', 're\u0301sume\u0301', 'ｆｕｌｌ', 'a\u0308\u0308b']), name, ident)
+        return '#[[[ @module named.%s%s\n# module text\n#]]\nfunction(f_%s)\nendfunction()\n' % (g.choice(['模块名称', 're\u0301sume\u0301', 'ｆｕｌｌ', 'a\u0308\u0308b', 'my helpers ', 'tab\tbed ']), name, ident)
     if k < 0.2:       # keyword arguments: rendering appends **kwargs to the entry's own parameter list
         return '#[[[\n# Fetch. %s\n#]]\nfunction(fetch_%s url dest)\n  cmake_parse_arguments(_f "" "" "X" ${ARGN})\nendfunction()\n' % (name, ident)
     if k < 0.55: return 'function(f_%s a)\nendfunction()\n' % ident
